@@ -78,7 +78,9 @@ ParentErr(t, p) ==
 
 Rename(t, p, q) ==
   LET rp == Resolve(t, p, FALSE)  rq == Resolve(t, q, FALSE)  pe == ParentErr(t, p)  qe == ParentErr(t, q) IN
-  IF pe # "" THEN Out(pe, t)
+  \* Go's os.Rename first Lstats the new name; if it is a directory, the error of Lstat(old) wins, otherwise EEXIST
+  IF rq.st = "ok" /\ t[rq.at] = "dir" THEN (IF rp.st # "ok" THEN Out(IF pe # "" THEN pe ELSE ErrCat(rp), t) ELSE Out("other", t))
+  ELSE IF pe # "" THEN Out(pe, t)
   ELSE IF qe # "" THEN Out(qe, t)
   ELSE IF rp.st # "ok" THEN Out(ErrCat(rp), t)
   ELSE IF rq.st \notin {"ok", "missing"} THEN Out(ErrCat(rq), t)
@@ -99,12 +101,13 @@ Symlink(t, k, q) ==
 
 (* os.Link(p, q): p is not followed by linkat(2) without AT_SYMLINK_FOLLOW... Go's os.Link uses link(2), which on Linux does not follow *)
 Link(t, p, q) ==
+  \* linkat(2): the old name is looked up first, then the new name is prepared (ENOENT / EEXIST), and only then a directory is refused (EPERM)
   LET rp == Resolve(t, p, FALSE)  rq == Resolve(t, q, FALSE) IN
   IF rp.st # "ok" THEN Out(ErrCat(rp), t)
-  ELSE IF t[rp.at] = "dir" THEN Out("permission", t)                                               \* EPERM
   ELSE IF rq.st = "ok" THEN Out("other", t)
-  ELSE IF rq.st = "missing" THEN Out("ok", Set1(t, rq.at, t[rp.at]))                               \* kind of the new name (content identity is not modelled)
-  ELSE Out(ErrCat(rq), t)
+  ELSE IF rq.st # "missing" THEN Out(ErrCat(rq), t)
+  ELSE IF t[rp.at] = "dir" THEN Out("permission", t)                                               \* EPERM
+  ELSE Out("ok", Set1(t, rq.at, t[rp.at]))                                                         \* kind of the new name (content identity is not modelled)
 
 StatLike(t, p, follow) == LET r == Resolve(t, p, follow) IN IF r.st = "ok" THEN Out("ok", t) ELSE Out(ErrCat(r), t)
 StatKind(t, p, follow) == LET r == Resolve(t, p, follow) IN IF r.st = "ok" THEN (IF r.at = <<>> THEN "dir" ELSE t[r.at]) ELSE "none"
@@ -119,6 +122,24 @@ Create(t, p) ==
   IF r.st = "ok" THEN (IF r.at = <<>> \/ t[r.at] = "dir" THEN Out("other", t) ELSE Out("ok", t))  \* EISDIR
   ELSE IF r.st = "missing" THEN Out("ok", Set1(t, r.at, "file"))
   ELSE Out(ErrCat(r), t)
+
+(* OpenFile with the flag combinations Create does not cover (k names the combination):
+     "r" O_RDONLY   "wt" O_WRONLY|O_TRUNC   "rwt" O_RDWR|O_TRUNC   "wa" O_WRONLY|O_APPEND      follow links, never create
+     "wc" O_WRONLY|O_CREATE   "rwc" O_RDWR|O_CREATE   "wct" O_WRONLY|O_CREATE|O_TRUNC          follow links, create the target
+     "wcx" O_WRONLY|O_CREATE|O_EXCL                                                            the last component is NOT followed
+   (file sizes are not part of the modelled tree; truncation is compared between package os and sftp by the replay) *)
+OpenKinds == {"r", "wt", "rwt", "wa", "wc", "rwc", "wct", "wcx"}
+OpenFile(t, k, p) ==
+  IF k = "wcx" THEN
+    LET r == Resolve(t, p, FALSE) IN
+    IF r.st = "ok" THEN Out("other", t)                                        \* EEXIST, also for a dangling link
+    ELSE IF r.st = "missing" THEN Out("ok", Set1(t, r.at, "file"))
+    ELSE Out(ErrCat(r), t)
+  ELSE
+    LET r == Resolve(t, p, TRUE) IN
+    IF r.st = "ok" THEN (IF k # "r" /\ (r.at = <<>> \/ t[r.at] = "dir") THEN Out("other", t) ELSE Out("ok", t))    \* EISDIR
+    ELSE IF r.st = "missing" THEN (IF k \in {"wc", "rwc", "wct"} THEN Out("ok", Set1(t, r.at, "file")) ELSE Out("notexist", t))
+    ELSE Out(ErrCat(r), t)
 
 Truncate(t, p) ==
   LET r == Resolve(t, p, TRUE) IN
@@ -158,6 +179,7 @@ Next ==
   \/ \E op \in OpNames1, p \in Paths : Step(op, p, <<>>, "", Apply1(op, tree, p))
   \/ \E op \in OpNames2, p \in Paths, q \in Paths : Step(op, p, q, "", Apply2(op, tree, p, q))
   \/ \E k \in Links, q \in Paths : Step("Symlink", <<>>, q, k, Symlink(tree, k, q))
+  \/ \E k \in OpenKinds, p \in Paths : Step("OpenFile", p, <<>>, k, OpenFile(tree, k, p))
 
 Spec == Init /\ [][Next]_vars
 
